@@ -587,6 +587,116 @@ def c13(rac, units, tier, seed):
 STANDINS = {"C01": c01, "C06": c06, "C10": c10, "C02": c02, "C03": c03, "C04": c04, "C13": c13}
 
 
+# ---------------------------------------------------------------------------------------------
+# C12 / C11: conformance of the trusted leaves (peek / peek2 / step, the str model, the syntree::Builder shim) and the
+# unverified drivers (eval(), Db::lookup, Display) on the real code
+
+TOKEN_ALPHABET = ["1", "23", "0.5", ".5", "1e3", "2e-2", "-", "+", "*", "/", "^", "**", "(", ")", "{", "}", ",", "%", " ", "  ", "\t", "to", "as", "in",
+                  "m", "km", "kg", "s", "°C", "µm", "Ω", "speed", "of", "light", "round", "floor", "x1", "é", "\\", "\\}", "€", "𝛑", "=", "#", ".", "e", "-1", "+2", "\n"]
+
+
+def _lex_parse_check(rep, rac, strings):
+    cmds = []
+    for s in strings:
+        cmds.append({"cmd": "lex", "s": s})
+        cmds.append({"cmd": "parse", "s": s})
+    ans = rac.ask_many(cmds)
+    for i, s in enumerate(strings):
+        lx, pr = ans[2 * i], ans[2 * i + 1]
+        b = s.encode("utf-8")
+        rep.ran(s, True, dict(input=s, tokens=len(lx.get("tokens", []))))
+        if "panic" in lx or lx.get("nontermination"):
+            rep.fail("lexer panicked or did not terminate", query=s, expected="tokens", actual=json.dumps(lx)[:200])
+            continue
+        toks = lx["tokens"]
+        pos = 0
+        bad = None
+        spans = []
+        for ln, kind in toks:
+            if ln < 1:
+                bad = "empty token"
+            spans.append((pos, pos + ln, kind))
+            pos += ln
+            if pos > len(b) or (pos < len(b) and (b[pos] & 0xC0) == 0x80):
+                bad = bad or f"token ends at byte {pos}, not a character boundary inside the input"
+        if pos != len(b):
+            bad = bad or f"tokens cover {pos} of {len(b)} bytes"
+        if bad:
+            rep.fail("lexer: " + bad, query=s, expected="non-empty tokens covering the input exactly on character boundaries", actual=json.dumps(toks)[:300])
+            continue
+        if "panic" in pr or "tree_error" in pr:
+            rep.fail("parser failed", query=s, expected="a tree", actual=json.dumps(pr)[:200])
+            continue
+        leaves = [(st, en, kind) for (_, kind, st, en, has) in pr["nodes"] if not has and en > st]
+        if leaves != spans:
+            rep.fail("tree leaves differ from the token sequence", query=s, expected=json.dumps(spans)[:300], actual=json.dumps(leaves)[:300])
+
+
+def c12(rac, units, tier, seed):
+    k = 3 if tier == "quick" else 4
+    rep = Report("C12 trusted leaves (peek/peek2/step, str model, builder shim) conformance on the real lexer/parser",
+                 f"all concatenations of <= {k} pieces from a {len(TOKEN_ALPHABET)}-piece alphabet (ASCII, 2/3/4-byte characters, escapes) sampled to a cap + seeded random strings up to 40 pieces; tokens must tile the input, leaves must equal tokens")
+    rnd = random.Random(seed)
+    strings = [""]
+    for L in range(1, k + 1):
+        allc = itertools.product(TOKEN_ALPHABET, repeat=L)
+        if L <= 2:
+            strings += ["".join(c) for c in allc]
+        else:
+            cap = 6000 if tier == "quick" else 40000
+            total = len(TOKEN_ALPHABET) ** L
+            pick = set(rnd.sample(range(total), min(cap, total)))
+            strings += ["".join(c) for i, c in enumerate(allc) if i in pick]
+    for _ in range(1500 if tier == "quick" else 20000):
+        strings.append("".join(rnd.choice(TOKEN_ALPHABET) for _ in range(rnd.randint(4, 40))))
+    for _ in range(300 if tier == "quick" else 5000):
+        strings.append("".join(chr(rnd.choice([rnd.randint(32, 126), rnd.randint(0xA0, 0x2FF), rnd.randint(0x2000, 0x2BFF), rnd.randint(0x1F300, 0x1F6FF), 9, 10])) for _ in range(rnd.randint(1, 24))))
+    _lex_parse_check(rep, rac, strings)
+    return [rep]
+
+
+def c11(rac, units, tier, seed, profile="debug"):
+    k = 2 if tier == "quick" else 3
+    rep = Report(f"C11 eval() driver / Db::lookup / Display under catch_unwind ({profile} profile)",
+                 f"token soups: all sequences of <= {k} pieces from a {len(TOKEN_ALPHABET)}-piece alphabet (capped) + seeded random soups up to 40 pieces + random Unicode; every result a displayable value or an error whose range lies in the input on character boundaries")
+    rnd = random.Random(seed + 11)
+    strings = [""]
+    for L in range(1, k + 1):
+        allc = list(itertools.product(TOKEN_ALPHABET, repeat=L))
+        if len(allc) > 30000:
+            allc = rnd.sample(allc, 30000)
+        strings += ["".join(c) for c in allc]
+    for _ in range(2500 if tier == "quick" else 30000):
+        strings.append(" ".join(rnd.choice(TOKEN_ALPHABET) for _ in range(rnd.randint(2, 40))) if rnd.random() < 0.5 else "".join(rnd.choice(TOKEN_ALPHABET) for _ in range(rnd.randint(2, 40))))
+    for _ in range(300 if tier == "quick" else 5000):
+        strings.append("".join(chr(rnd.choice([rnd.randint(32, 126), rnd.randint(0xA0, 0x2FF), rnd.randint(0x2000, 0x2BFF), rnd.randint(0x1F300, 0x1F6FF), 9])) for _ in range(rnd.randint(1, 24))))
+    strings += ["1 m^0", "1 J/N * 1 m", "round(1.234, 2)", "0 ^ -1", "1 / 0", "1e999 * 1e999", "2 ^ 999", "1m^99", "(", ")", "((", "round(", "round(,)", "1 to", "to m", "1 m to °C^2", "10 °C/s to K/s",
+                "1e-999", "1 km^-99 to m^-99", "{speed of light", "speed of light}", "\\", "1 °C * 1 °C", "1 °F^-1 to K^-1", "1 % %", "1%%", "- 1", "1 - - 1", "1e", "1e+", "1.e5.", "..", "1..2"]
+    ans = rac.ask_many([{"cmd": "query", "q": s} for s in strings])
+    for s, a in zip(strings, ans):
+        rep.ran(s, True, dict(input=s, results=len(a.get("results", []))))
+        if "panic" in a:
+            rep.fail("panic", query=s, expected="values or located errors", actual=str(a["panic"])[:200])
+            continue
+        if "parse_error" in a:
+            rep.fail("parse failed (no tree)", query=s, expected="a tree with ERROR nodes", actual=a["parse_error"][:200])
+            continue
+        for r in a["results"]:
+            if "ok" in r:
+                d = r["ok"].get("display")
+                if isinstance(d, dict):
+                    rep.fail("value cannot be displayed (panic in Display)", query=s, expected="text", actual=str(d)[:200])
+            else:
+                e = r["err"]
+                if not e["on_boundary"] or not e["msg"]:
+                    rep.fail("error range outside the input or off a character boundary", query=s, expected="range inside the input on character boundaries", actual=json.dumps(e)[:200])
+    return [rep]
+
+
+STANDINS["C12"] = c12
+STANDINS["C11"] = c11
+
+
 def register(prop):
     def deco(fn):
         STANDINS[prop] = fn
